@@ -427,6 +427,29 @@ void cmb_timeseries_sort_t(struct cmb_timeseries *tsp)
 }
 
 /*
+ * Weighted quantile of the sorted values xa with cumulative weights wcum:
+ * The first value where the cumulative weight reaches wq, or halfway to the
+ * next value if it is reached exactly there. At most wq of the total weight is
+ * then strictly below the result and at most the remainder strictly above it,
+ * also when one value holds most of the weight or all weights are zero.
+ */
+static double timeseries_wtd_quantile(const uint64_t un,
+                                      const double xa[un],
+                                      const double wcum[un],
+                                      const double wq)
+{
+    cmb_assert_debug(un > 0u);
+
+    uint64_t ui = 0u;
+    while ((ui < un - 1u) && (wcum[ui] < wq)) {
+        ui++;
+    }
+
+    return ((wcum[ui] == wq) && (ui < un - 1u)) ?
+           xa[ui] + 0.5 * (xa[ui + 1u] - xa[ui]) : xa[ui];
+}
+
+/*
  * Takes a copy before sorting, leaving tsp unchanged.
  */
 double cmb_timeseries_median(const struct cmb_timeseries *tsp)
@@ -451,16 +474,7 @@ double cmb_timeseries_median(const struct cmb_timeseries *tsp)
     }
 
     const double wmid = 0.5 * wsum;
-    double r = 0.0;
-     for (uint64_t ui = 0u; ui < un - 1; ui++) {
-        if ((wcum[ui] <= wmid) && (wcum[ui + 1] > wmid)) {
-            cmb_assert_debug(wcum[ui + 1] > wcum[ui]);
-            r = dsp->xa[ui] + (dsp->xa[ui + 1]
-                            - dsp->xa[ui]) * (wmid - wcum[ui])
-                               / (wcum[ui + 1] - wcum[ui]);
-            break;
-        }
-    }
+    const double r = timeseries_wtd_quantile(un, dsp->xa, wcum, wmid);
 
     cmi_free(wcum);
     cmb_timeseries_reset(&tmp_ts);
@@ -497,31 +511,9 @@ void cmb_timeseries_fivenum_print(const struct cmb_timeseries *tsp,
     const double w050 = 0.50 * wsum;
     const double w075 = 0.75 * wsum;
 
-    double x025 = 0.0;
-    double x050 = 0.0;
-    double x075 = 0.0;
-    for (uint64_t ui = 0u; ui < un - 1; ui++) {
-        if ((wcum[ui] <= w025) && (wcum[ui + 1] > w025)) {
-            cmb_assert_debug(wcum[ui + 1] > wcum[ui]);
-            x025 = dsp->xa[ui] + (dsp->xa[ui + 1]
-                               - dsp->xa[ui]) * (w025 - wcum[ui])
-                                  / (wcum[ui + 1] - wcum[ui]);
-        }
-
-        if ((wcum[ui] <= w050) && (wcum[ui + 1] > w050)) {
-            cmb_assert_debug(wcum[ui + 1] > wcum[ui]);
-            x050 = dsp->xa[ui] + (dsp->xa[ui + 1]
-                               - dsp->xa[ui]) * (w050 - wcum[ui])
-                                  / (wcum[ui + 1] - wcum[ui]);
-        }
-
-        if ((wcum[ui] <= w075) && (wcum[ui + 1] > w075)) {
-            cmb_assert_debug(wcum[ui + 1] > wcum[ui]);
-            x075 = dsp->xa[ui] + (dsp->xa[ui + 1]
-                               - dsp->xa[ui]) * (w075 - wcum[ui])
-                                  / (wcum[ui + 1] - wcum[ui]);
-        }
-    }
+    const double x025 = timeseries_wtd_quantile(un, dsp->xa, wcum, w025);
+    const double x050 = timeseries_wtd_quantile(un, dsp->xa, wcum, w050);
+    const double x075 = timeseries_wtd_quantile(un, dsp->xa, wcum, w075);
 
     cmb_assert_debug((xmin <= x025) && (x025 <= x050)
                   && (x050 <= x075) && (x075 <= xmax));
